@@ -239,7 +239,8 @@ impl Gen {
                     let len = v.len;
                     op.a = if len > 1 { abs(1 + self.r.below(len - 1)) } else { abs(0) };
                 }
-                if !(op.op.starts_with("m_split") && !room) {
+                let other_ok = op.op != "m_unsplit" || m.hs.get(op.o).map(|x| matches!(x, Some(H::M(_)))).unwrap_or(false);
+                if !(op.op.starts_with("m_split") && !room) && other_ok {
                     return Some(op);
                 }
             }
@@ -296,12 +297,20 @@ impl Gen {
                     let o = sharers[self.r.below(sharers.len())];
                     let both_m = matches!(m.hs[f], Some(H::M(_))) && matches!(m.hs[o], Some(H::M(_)));
                     if both_m && self.r.chance(50) {
-                        return Some(if self.r.chance(50) {
-                            Op { op: "m_unsplit".into(), h: f, o, ..Default::default() }
-                        } else {
-                            self.focus = Some(o);
-                            Op { op: "m_unsplit".into(), h: o, o: f, ..Default::default() }
-                        });
+                        let (front, back) = if self.r.chance(50) { (f, o) } else { (o, f) };
+                        self.focus = Some(front);
+                        let un = Op { op: "m_unsplit".into(), h: front, o: back, ..Default::default() };
+                        if self.r.chance(35) {
+                            // shorten the receiving half first (0 < len < capacity), then join
+                            let fl = m.view(front).map(|w| w.len).unwrap_or(0);
+                            self.pending = Some(un);
+                            return Some(match self.r.below(3) {
+                                0 => Op { op: "m_truncate".into(), h: front, a: if fl > 1 { abs(1 + self.r.below(fl - 1)) } else { abs(0) }, ..Default::default() },
+                                1 => Op { op: "m_truncate".into(), h: front, a: self.index(fl), ..Default::default() },
+                                _ => Op { op: "m_resize".into(), h: front, a: abs(self.r.below(fl + 1)), val: 210, ..Default::default() },
+                            });
+                        }
+                        return Some(un);
                     }
                     return Some(Op { op: "drop".into(), h: o, ..Default::default() });
                 }
